@@ -157,6 +157,8 @@ pub enum Step {
     SetMods { mods: Mods },
     /// move the shared ID counter (H4) - models a long history of allocations
     SetIdCounter { last: i32 },
+    /// move the shared ID counter to `back` below the wire ID of the operation `token`
+    SetIdCounterBefore { token: String, back: i32 },
     /// query last_id()/is_closed() (recorded)
     Probe,
 }
